@@ -100,6 +100,59 @@ theorem deltac_apply_eq (v b shift : Int) (hv : Dist29 v) (hs : 0 ≤ shift ∧ 
   unfold HintMove.wadd FtCalc.addLong
   rw [wI32 (by omega) (by omega), wI64 (by omega) (by omega)]
 
+/-- **one DELTAP1‑3 exception, whole**: for EVERY argument word `b`, every i32 ppem, every bias (0 / 16 / 32
++ delta_base ≤ 2^17), delta_shift 0‥6, in and out of backward compatibility (before / after both IUPs,
+composite or not, point touched in y or not): the same decision whether the exception fires, the same
+decoded step (magnitude nibble → −8‥−1, +1‥+8 steps of 2^(6−shift), the zero skipped), and the same
+resulting point and touch flags (`move_point` ⇄ `func_move`, coordinates within ±2^29). -/
+theorem deltap_exception_eq (g : HintVec.Proj) (ppem bias shift : Int) (bc iup composite : Bool) (b : Int)
+    (p : HintVec.MPt) (hg : ProjOk g) (hp : MPos29 p) (hpp : inI32 ppem) (hb : 0 ≤ bias ∧ bias ≤ 131072)
+    (hs : 0 ≤ shift ∧ shift ≤ 6) :
+    HintStep.deltapOne g ppem bias shift bc iup composite b p =
+      some (FtStep.deltapOne (toFuncs g) ppem bias shift bc iup composite b p) := by
+  unfold HintStep.deltapOne FtStep.deltapOne
+  rw [delta_ppem_eq]
+  have hc : 0 ≤ FtStep.deltaPpem b bias ∧ FtStep.deltaPpem b bias < 2147483648 := by
+    unfold FtStep.deltaPpem wrapU64; omega
+  have hst := delta_step_eq b shift hs
+  have hmv := move_point_eq g bc iup p (FtStep.deltaStep b shift) hg hp (by unfold Dist24; omega)
+  by_cases hf : wrapU64 ppem = FtStep.deltaPpem b bias
+  · have hf' := (delta_fires_eq ppem _ hpp hc).mpr hf
+    rw [if_pos hf', if_pos hf, hst.1]
+    simp only [Option.map_some, Option.some.injEq, hmv]
+    rfl
+  · have hf' : ¬ wrapU32 ppem = FtStep.deltaPpem b bias := fun h => hf ((delta_fires_eq ppem _ hpp hc).mp h)
+    rw [if_neg hf', if_neg hf]
+
+/-- **one DELTAC1‑3 exception, whole**: the same new cvt value for every argument word, for a cvt value
+within ±2^29. -/
+theorem deltac_exception_eq (ppem bias shift b v : Int) (hpp : inI32 ppem) (hb : 0 ≤ bias ∧ bias ≤ 131072)
+    (hs : 0 ≤ shift ∧ shift ≤ 6) (hv : Dist29 v) :
+    HintStep.deltacOne ppem bias shift b v = some (FtStep.deltacOne ppem bias shift b v) := by
+  unfold HintStep.deltacOne FtStep.deltacOne
+  rw [delta_ppem_eq]
+  have hc : 0 ≤ FtStep.deltaPpem b bias ∧ FtStep.deltaPpem b bias < 2147483648 := by
+    unfold FtStep.deltaPpem wrapU64; omega
+  have hst := delta_step_eq b shift hs
+  by_cases hf : wrapU64 ppem = FtStep.deltaPpem b bias
+  · have hf' := (delta_fires_eq ppem _ hpp hc).mpr hf
+    rw [if_pos hf', if_pos hf, hst.1]
+    simp only [Option.map_some, Option.some.injEq]
+    exact deltac_apply_eq v b shift hv hs
+  · have hf' : ¬ wrapU32 ppem = FtStep.deltaPpem b bias := fun h => hf ((delta_fires_eq ppem _ hpp hc).mp h)
+    rw [if_neg hf', if_neg hf]
+
+-- the magnitude nibble around the skipped zero: 7 → −1 step, 8 → +1 step (not 0, not +2); y axis, ppem 16,
+-- delta_base 9 (nibble 7), delta_shift 3: the point moves by −8 / +8
+example :
+    let g : HintVec.Proj := ⟨⟨0, 16384⟩, ⟨0, 16384⟩, ⟨0, 16384⟩, 16384, .y, .y, .y⟩
+    HintStep.deltapOne g 16 9 3 false false false 0x77 ⟨0, 100, false, false⟩ = some ⟨0, 92, false, true⟩
+    ∧ HintStep.deltapOne g 16 9 3 false false false 0x78 ⟨0, 100, false, false⟩ = some ⟨0, 108, false, true⟩
+    ∧ FtStep.deltapOne (toFuncs g) 16 9 3 false false false 0x78 ⟨0, 100, false, false⟩ = ⟨0, 108, false, true⟩
+    ∧ HintStep.deltapOne g 17 9 3 false false false 0x78 ⟨0, 100, false, false⟩ = some ⟨0, 100, false, false⟩
+    ∧ HintStep.deltapOne g 16 9 3 true false false 0x78 ⟨0, 100, false, false⟩ = some ⟨0, 100, false, false⟩
+    ∧ HintStep.deltacOne 16 9 3 0x78 500 = some 508 ∧ FtStep.deltacOne 16 9 3 0x70 500 = 436 := by decide
+
 /-! ### MPS, GETINFO, INSTCTRL, SCANCTRL, the start of a glyph program -/
 
 /-- **MPS**: `ppem.saturating_mul(64)` = `exc->pointSize` = `FT_MulDiv( ppem, 64 * 72, 72 )` for every
